@@ -155,6 +155,8 @@ def run_mpe(cfg, tier, find_min):
     def body():
         T = sym_inputs(cfg)
         st["T"] = T
+        # the tables as handed over (cell objects), for the frame condition: extraction must not write into its inputs
+        st["T0"] = {k: np.array(T[k], dtype=object).view(np.ndarray).copy() for k in T if isinstance(T[k], np.ndarray)}
         for a in base_assumptions(cfg, T):
             Explorer.cur.assume(a)
         if orders is not None:
@@ -166,6 +168,14 @@ def run_mpe(cfg, tier, find_min):
         T = st["T"]
         if kind == "exc":
             tally.decide(e, z3.BoolVal(True), on_sat=lambda m: cex(cfg, T, m, order, f"raised {out!r}"), label="no exception expected")
+            continue
+        touched = [f"{k}{list(ix)}" for k, a0 in st["T0"].items() for ix in np.ndindex(a0.shape)
+                   if np.asarray(T[k], dtype=object).view(np.ndarray)[ix] is not a0[ix]]
+        if touched:
+            for k, a0 in st["T0"].items():      # judge the rest against the tables as they were handed over
+                T[k] = SymArray(a0)
+            tally.decide(e, z3.BoolVal(True), on_sat=lambda m: cex(cfg, T, m, order, f"input tables modified by the call: {touched[:4]}"),
+                         label="inputs are not modified")
             continue
         Fn = out[0]
         k = int(np.shape(Fn)[0]) if np.ndim(Fn) else 0
@@ -279,16 +289,22 @@ def replay_mpe(cfg, inputs, order=None):
     R, C = Fn.shape
     cov = "Fn_cov" in inputs
     name = f"{cfg['fn']}_mpe"
+    before = [a.copy() for a in (Fn, Xi, Phi, Lab)]
     try:
         with np.errstate(all="ignore"):
             if cfg["fn"] == "SSI":
                 kw = dict(Fn_cov=np.array(inputs["Fn_cov"], dtype=float), Xi_cov=np.array(inputs["Xi_cov"], dtype=float),
                           Phi_cov=np.array(inputs["Phi_cov"], dtype=float)) if cov else {}
+                before += [a.copy() for a in kw.values()]
                 out = fssi.SSI_mpe(list(req), Fn, Xi, Phi, list(order) if isinstance(order, list) else order, Lab=Lab, rtol=rtol, **kw)
             else:
                 out = tuple(fplscf.pLSCF_mpe(list(req), Fn, Xi, Phi, list(order) if isinstance(order, list) else order, Lab=Lab, rtol=rtol)) + (None,) * 3
     except Exception as e:  # noqa: BLE001
         return True, f"{name}(order={order}) raised {type(e).__name__}: {e}", f"{name}:raises:{'find_min' if order == 'find_min' else 'explicit'}"
+    after = [Fn, Xi, Phi, Lab] + (list(kw.values()) if cfg["fn"] == "SSI" else [])
+    for nm, a0, a1 in zip(("Fn", "Xi", "Phi", "Lab", "Fn_cov", "Xi_cov", "Phi_cov"), before, after):
+        if not np.array_equal(a0, a1, equal_nan=True):
+            return True, f"{name}(order={order}) modified its input table {nm} (a second extraction would see different poles)", f"{name}:modifies-input"
     oFn, oXi, oPhi, oo = out[0], out[1], out[2], out[3]
     k = len(np.atleast_1d(oFn)) if np.size(oFn) else 0
     tol_must = [rtol * f for f in req]
